@@ -6,7 +6,9 @@
      fixes/d21-client-encode-before-queue.diff  (ehlo/helo/lhlo/mailfrom/rcptto
         build - and so encode - the command before the reply slot is queued)
      fixes/d22-lmtp-flush-before-data.diff      (LmtpClient.send_data /
-        send_empty_data flush the pipeline before reading the RCPT replies).
+        send_empty_data flush the pipeline before reading the RCPT replies)
+     fixes/d40-lmtp-data-after-bad-rcpt-reply.diff (a recipient whose RCPT reply
+        was never filled - BadReply - is not an accepted recipient).
 
    Reply objects are shared between the caller, `reply_queue` and (LMTP)
    `rcpttos`; they are modelled as a heap `s_objs` (every Reply object the
@@ -88,7 +90,8 @@ Definition set_obj_k (st : cstate) (id : nat) (k : kind) (r : reply) : cstate :=
 Inductive exn :=
 | XEncode        (* UnicodeEncodeError from _encode / .encode('ascii') *)
 | XNotImpl       (* NotImplementedError: ehlo/helo on LMTP, lhlo on SMTP *)
-| XAttr          (* AttributeError: None.startswith in LmtpClient.send_data *)
+| XAttr          (* AttributeError: None.startswith in LmtpClient.send_data; no method raises it
+                    since fix d40 - kept so that the unfixed code can be reported *)
 | XBadReply      (* slimta.smtp.BadReply *)
 | XBadCode       (* ValueError from the Reply.code setter *)
 | XLost          (* ConnectionLost: recv returned b'' *)
@@ -319,15 +322,17 @@ Section Client.
 
   Definition SEND_DATA := bs "[SEND_DATA]".
 
-  (* the `for address, rcptto_reply in self.rcpttos` loop of LmtpClient.send_data:
-     None = AttributeError (code is None); slots queued before it stay queued *)
+  (* the `for address, rcptto_reply in self.rcpttos` loop of LmtpClient.send_data, after fix
+     d40: `if rcptto_reply.code and rcptto_reply.code.startswith('2')` - a recipient whose
+     RCPT reply was never filled (code is None: its reply was a BadReply) is not an
+     accepted recipient and gets no end-of-data slot *)
   Fixpoint lmtp_slots (rs : list (list N * nat)) (st : cstate) (acc : list (list N * nat))
-    : cstate * option (list (list N * nat)) :=
+    : cstate * list (list N * nat) :=
     match rs with
-    | [] => (st, Some acc)
+    | [] => (st, acc)
     | (a, rid) :: rs' =>
         match r_code (o_r (get_obj st rid)) with
-        | [] => (st, None)
+        | [] => lmtp_slots rs' st acc
         | k :: _ =>
             if k =? 50 then
               let '(st1, id) := new_slot SEND_DATA KPlain st in
@@ -341,16 +346,13 @@ Section Client.
     match flush st with
     | (st0, Some e) => (st0, RExn e)
     | (st0, None) =>
-        match lmtp_slots (s_rcpttos st0) st0 [] with
-        | (st1, None) => (st1, RExn XAttr)
-        | (st1, Some ret) =>
-            let st2 := buffered_send wire (set_rcpttos st1 []) in
-            if pipelining st2 then (st2, RPairs ret)
-            else match flush st2 with
-                 | (st3, None) => (st3, RPairs ret)
-                 | (st3, Some e) => (st3, RExn e)
-                 end
-        end
+        let '(st1, ret) := lmtp_slots (s_rcpttos st0) st0 [] in
+        let st2 := buffered_send wire (set_rcpttos st1 []) in
+        if pipelining st2 then (st2, RPairs ret)
+        else match flush st2 with
+             | (st3, None) => (st3, RPairs ret)
+             | (st3, Some e) => (st3, RExn e)
+             end
     end.
 
   Definition step (o : op) (st : cstate) : cstate * result :=
@@ -471,17 +473,16 @@ Definition result_ok (r : result) : Prop :=
   | RExn _ => False
   end.
 (* the same, when the script may contain undecodable replies: BadReply for the call
-   that was reading one; AttributeError from LmtpClient.send_data when the RCPT reply it
-   looks at was such a BadReply *)
+   that was reading one *)
 Definition result_ok_gen (r : result) : Prop :=
   match r with
-  | RExn XBadCode => False | RExn XLost => False | RExn XDead => False
+  | RExn XBadCode => False | RExn XLost => False | RExn XDead => False | RExn XAttr => False
   | _ => True
   end.
 (* (address, object) was produced by a call rcptto(address) that returned that object *)
 Definition from_call (ops : list op) (results : list result) (p : list N * nat) : Prop :=
   exists k, nth_error ops k = Some (ORcpt (fst p)) /\ nth_error results k = Some (RObj (snd p)).
-(* code class 2 (LmtpClient: rcptto_reply.code.startswith('2')) *)
+(* code class 2 (LmtpClient: rcptto_reply.code and rcptto_reply.code.startswith('2')) *)
 Definition class2 (c : bytes) : bool := match c with k :: _ => (k =? 50) | [] => false end.
 (* pair the addresses, in order, with the objects n, n+1, ... *)
 Fixpoint number (n : nat) (l : list (list N)) : list (list N * nat) :=
